@@ -11,6 +11,7 @@ import (
 	"crypto/tls"
 	"fmt"
 	"go.nanomsg.org/mangos/v3/protocol/sub"
+	"io"
 	"net"
 	"os"
 	"strings"
@@ -327,7 +328,7 @@ func c12BadPeers(c *Ctx, scheme string) {
 		host := strings.SplitN(u[1], "/", 2)[0]
 		return net.DialTimeout("tcp", host, time.Second)
 	}
-	kinds := []string{"connects and closes at once", "sends garbage", "sends a wrong protocol header", "connects and stays silent"}
+	kinds := []string{"connects and closes at once", "reads our header and hangs up", "sends half a header and hangs up", "sends garbage", "sends a wrong protocol header", "connects and stays silent"}
 	var keep []net.Conn
 	for _, k := range kinds {
 		r := &c12run{c: c, cas: scheme + " listener: a peer " + k}
@@ -338,6 +339,18 @@ func c12BadPeers(c *Ctx, scheme string) {
 		}
 		switch k {
 		case "connects and closes at once":
+			_ = cn.Close()
+		case "reads our header and hangs up":
+			// a clean end of stream where the peer's header was expected (not a reset)
+			hdr := make([]byte, 8)
+			_ = cn.SetReadDeadline(time.Now().Add(time.Second))
+			_, _ = io.ReadFull(cn, hdr)
+			_ = cn.Close()
+		case "sends half a header and hangs up":
+			hdr := make([]byte, 8)
+			_ = cn.SetReadDeadline(time.Now().Add(time.Second))
+			_, _ = io.ReadFull(cn, hdr)
+			_, _ = cn.Write([]byte{0, 'S', 'P', 0})
 			_ = cn.Close()
 		case "sends garbage":
 			_, _ = cn.Write([]byte("GET / HTTP/1.0\r\n\r\n\x00\x01\x02\x03garbage-garbage-garbage"))
